@@ -1033,7 +1033,6 @@ vbi3_bit_slicer_set_params	(vbi3_bit_slicer *	bs,
 
 	cri_end = MIN (cri_end, samples_per_line - data_samples);
 
-	bs->cri_samples = cri_end - sample_offset;
 	bs->cri_rate = cri_rate;
 
 	bs->oversampling_rate = sampling_rate * oversampling;
@@ -1079,6 +1078,37 @@ vbi3_bit_slicer_set_params	(vbi3_bit_slicer *	bs,
 			 + bs->step * .25 + 128);
 		break;
 	}
+
+	/* When the CRI is found in search iteration n the last payload
+	   bit is sampled at n + (i >> 8) with i = phase_shift
+	   + (data_bits - 1) * step. The normal slicers read that sample
+	   and its successor, the low pass slicer has already advanced
+	   by one sample and sums (1 << LP_AVG) samples. Since the
+	   payload loop has no data end check the search must end so
+	   early that all this still lies within samples_per_line. */
+	{
+		unsigned int reach;
+
+		reach = ((bs->phase_shift + (data_bits - 1) * bs->step) >> 8)
+			+ 1;
+		if (1 == oversampling)
+			reach += (1 << LP_AVG) - 1;
+
+		if (reach >= samples_per_line
+		    || (samples_per_line - reach) <= sample_offset) {
+			warning (&bs->log,
+				 "%u samples_per_line too small to sample "
+				 "%u frc_bits and %u payload_bits "
+				 "(%u samples).",
+				 samples_per_line, frc_bits, payload_bits,
+				 reach);
+			goto failure;
+		}
+
+		cri_end = MIN (cri_end, samples_per_line - reach);
+	}
+
+	bs->cri_samples = cri_end - sample_offset;
 
 	return TRUE;
 
